@@ -15,7 +15,7 @@ RULE = ("correspondence: Specification.list_from_label on labels rendered from a
         "find_specification_label_in_feature on label/note qualifiers; oracle on the real classes: from_label(render l) "
         "vs the constructor called with the abstract label's values (class, attributes, location, strand), "
         "from_record(record) vs the direct API, write_record -> from_record(path), to_record() sequence after edits, "
-        "documented shorthands resolve; non-trivial = '&' joins, keyword lists, or strand -1 features")
+        "documented shorthands resolve; feature strands +1 / -1 / none; non-trivial = '&' joins, keyword lists, or strand -1 features")
 TRUSTED = ["harness/props/C16.py templates of valid constructor calls per class", "object canonicalisation (vars())",
            "Biopython Genbank writer / reader (exercised, not modelled)"]
 ASSUMPTIONS = ["labels are ASCII without line breaks (the model answers out-of-model otherwise)",
@@ -360,7 +360,7 @@ def gen_case(rng):
         span = rng.choice([6, 9, 12, 15, 10, 11])
         b = min(n, a + span)
         span = b - a
-        strand = rng.choice([1, 1, -1])
+        strand = rng.choice([1, 1, -1, None])     # None: an unstranded feature (records built in Python / Snapgene)
         subs = []
         for _ in range(rng.choice([1, 1, 2, 3])):
             names, args, kwargs = rng.choice(templates(rng, n, span))
@@ -386,7 +386,8 @@ def oracle_case(inp, out, tmpdir):
         a, b, strand = d["location"]
         feats.append(SeqFeature(FeatureLocation(a, b, strand), type="misc_feature", qualifiers={d.get("field", "label"): d["label"]}))
         for role, name, args, kwargs in d["subs"]:
-            direct["constraint" if role == "@" else "objective"].append((reg[name], args, kwargs, (a, b, strand)))
+            # the Python API reads "no strand" as 0
+            direct["constraint" if role == "@" else "objective"].append((reg[name], args, kwargs, (a, b, strand or 0)))
 
     def build_direct():
         cons = [cls(*args, location=Location(*loc), **kw) for cls, args, kw, loc in direct["constraint"]]
@@ -444,8 +445,10 @@ def oracle_case(inp, out, tmpdir):
         return True
     if not same_problem(p_rec, p_direct, "record-vs-api"):
         return 1
-    # (3) through a Genbank file
+    # (3) through a Genbank file (a Genbank file cannot hold an unstranded feature: those records stop here)
     path = os.path.join(tmpdir, "r.gb")
+    if any(d["location"][2] is None for d in desc):
+        return 1
     try:
         dc.biotools.write_record(record, path)
         back = dc.biotools.load_record(path)
